@@ -170,6 +170,52 @@ example :
     (phaseKey? toy demoKey "bb" "0").isSome ∧ (phaseKey? toy demoKey "aa" "version").isSome := by
   decide
 
+/-- The same for a message that arrived BEFORE the peer's PAKE message and waits in Order's queue: the queue keeps the
+    side label each frame came with (`(side, phase, body)`), and when the PAKE message arrives (key `K` computed, our
+    version sent, Receive keyed) `drain` hands the queued frame to Receive under *its own* label.  If that label is not
+    the one the body was sealed for — the server rewrote the side (or phase) of the peer's early message — the frame
+    is bad: Receive `S3_scared`, Boss closes with `WrongPasswordError`; the application has been told the unverified
+    key and nothing else (no verifier, no versions, no message). -/
+theorem relabelled_queued_before_pake_rejected {C : Crypto} (hC : C.Ideal) (cfg : Cfg) (s : St) (f g : Frame)
+    (pw e K : Bytes) (σ0 φ0 : String) (dk0 dkv : Bytes) (n : Nat) (p : Bytes)
+    (hm : s.lo.mbox = .S2B) (ht : s.lo.term = .Snmo) (ho : s.ord = .S0_no_pake) (hq : s.oq = [g])
+    (hkey : s.key = .S10) (hsk : s.sk = .S1_know_code) (hpw : s.pw = some pw) (hb : s.boss = .S1_lonely)
+    (hr : s.rcv = .S0_unknown_key)
+    (hside : f.side ≠ cfg.side) (hnew : s.processed.contains f.phase = false) (hp : f.phase = "pake")
+    (hbody : C.pakeDecode f.body = .elem e) (hfin : C.pakeFinish cfg.secret pw e = some K)
+    (hown : phaseKey? C K cfg.side "version" = some dkv)
+    (hascii : (phaseKey? C K g.side g.phase).isSome)
+    (hseal : phaseKey? C K σ0 φ0 = some dk0 ∧ g.body = C.boxSeal dk0 n p)
+    (hne : ¬ (σ0 = g.side ∧ φ0 = g.phase)) :
+    let r := step C cfg s (.rx f)
+    r.2 = none ∧ r.1.rkey = some K ∧ r.1.rcv = .S3_scared ∧ r.1.boss = .S3_closing ∧ r.1.result = .wrongPassword ∧
+    r.1.oq = [] ∧ r.1.app = s.app ++ [.gotKey K] := by
+  obtain ⟨dk, hdk⟩ := Option.isSome_iff_exists.mp hascii
+  have hnew' : f.phase ∉ s.processed := by simpa using hnew
+  have hnew'' : "pake" ∉ s.processed := hp ▸ hnew'
+  have hbad : C.boxOpen dk g.body = none := by
+    rw [hseal.2]
+    apply hC.box_key
+    intro heq
+    subst heq
+    have := phaseKey?_inj hC hseal.1 hdk
+    exact hne ⟨this.2.1, this.2.2⟩
+  simp [step, wsMessage, mRxMessage, hside, hm, Mailbox.table, runOuts, mRxOut, hnew'', oGotMessage, hp, ho,
+    Order.table, oOut, kInput, hkey, Key.table, kOut, skGotPake, hbody, skInput, hsk, SortedKey.table, skOut, hpw,
+    hfin, bossInput, hb, Boss.table, bossOut, hown, liftLo, mLow, mLowOut, rInput, hr, Receive.table, rOut,
+    deliverAll, hq, rGotMessage, hdk, hbad, tClose, ht, Terminator.table]
+
+/-- non-vacuity: the demo client before the PAKE message, with the peer's version message queued under side "xx" -/
+example :
+    let g : Frame := { side := "xx", phase := "version", body := demoSeal "version" [123, 125] }
+    let s := run toy demoCfg {} [.connected, .claimed, .code [49], .rx g]
+    s.lo.mbox = .S2B ∧ s.lo.term = .Snmo ∧ s.ord = .S0_no_pake ∧ s.oq = [g] ∧ s.key = .S10 ∧ s.sk = .S1_know_code ∧
+    s.pw = some [49] ∧ s.boss = .S1_lonely ∧ s.rcv = .S0_unknown_key ∧ s.processed.contains "pake" = false ∧
+    toy.pakeFinish demoCfg.secret [49] (toy.pakeStart [1] [49]) = some demoKey ∧
+    (phaseKey? toy demoKey demoCfg.side "version").isSome ∧ (phaseKey? toy demoKey "xx" "version").isSome ∧
+    g.body = toy.boxSeal ((phaseKey? toy demoKey "bb" "version").getD []) 0 [123, 125] := by
+  decide
+
 /-- A frame that carries our own side is an echo: whatever its phase and body, the only effect is
     `_pending_outbound.pop(phase)`; it never reaches Order, Receive or a decryption. -/
 theorem own_side_is_echo_never_decrypted (C : Crypto) (cfg : Cfg) (s : St) (f : Frame)
